@@ -51,6 +51,13 @@ __CPROVER_assigns(*b, *e)
 __CPROVER_ensures(*b <= *e && *e <= q->len)
 __CPROVER_ensures(TQ_IN(*q, G_i) ? (G_i < *b ? TQ_EXP(*q, G_i) < key : (G_i < *e ? TQ_EXP(*q, G_i) == key : TQ_EXP(*q, G_i) > key)) : 1)
 ;
+/* std::equal_range WITHOUT a comparator compares the element POINTERS: on a queue ordered by expiry the result depends on where
+ * the timer objects happen to live: an arbitrary sub-range */
+void tq_equal_range_by_address(struct tq *q, struct hrtimer *t, size_t *b, size_t *e)
+__CPROVER_requires(TQ_SHAPE(*q))
+__CPROVER_assigns(*b, *e)
+__CPROVER_ensures(*b <= *e && *e <= q->len)
+;
 /* std::find(first, last, t): first position in [first, last) holding t, else last */
 size_t tq_find(struct tq *q, size_t first, size_t last, struct hrtimer *t)
 __CPROVER_requires(TQ_SHAPE(*q) && first <= last && last <= q->len)
